@@ -66,6 +66,9 @@ var keCookies atomic.Int32
 
 func init() { keCookies.Store(8) }
 
+// keRepeatFirst: the key-exchange server's second cookie record repeats the first.
+var keRepeatFirst atomic.Bool
+
 func setKETarget(a *net.UDPAddr) {
 	keTargetMu.Lock()
 	keTargetAddr = a
@@ -114,6 +117,10 @@ func TestMain(m *testing.M) {
 				return
 			}
 			recs = append(recs, netlab.Rec{Type: netlab.RecCookie, Body: enc.Encode()})
+			if keRepeatFirst.Load() && i == 0 {
+				recs = append(recs, recs[len(recs)-1]) // a key-exchange server that sends its first cookie record twice
+				i++
+			}
 		}
 		recs = append(recs, netlab.Rec{Type: netlab.RecEnd, Critical: true})
 		c.WriteSegments(netlab.EncodeRecs(recs), nil)
